@@ -35,9 +35,11 @@ def tlc_threads(cfgname, obs, nt, rounds, extra=(), props=True):
 def run(prop, tier, replay=None):
     t0 = time.time()
     A.build("plain", "tsan")
-    wrap = ["-Wl,--wrap=open,--wrap=fstat,--wrap=read,--wrap=close"]
+    wrap = ["-Wl,--wrap=open,--wrap=fstat,--wrap=read,--wrap=close,--wrap=mmap,--wrap=mremap,--wrap=munmap"]
     exe = A.build_harness("threadrun", extra=wrap)
-    exe_tsan = A.build_harness("threadrun", variant="tsan", extra=wrap)
+    # (the race detector must see the real mapping calls: wrapping mmap/munmap hides them from its interceptors and a buffer address
+    #  reused by another thread is then reported as a race)
+    exe_tsan = A.build_harness("threadrun", variant="tsan", extra=["-Wl,--wrap=open,--wrap=fstat,--wrap=read,--wrap=close", "-DNO_MAP_WRAP"])
     work = os.path.join(A.BUILD, "work")
     os.makedirs(work, exist_ok=True)
     pid = os.getpid()
@@ -107,6 +109,21 @@ def run(prop, tier, replay=None):
         tsan_events += [json.loads(l) for l in rr.stdout.splitlines() if l.startswith("{")]
         tsan_events.append({"e": "Tsan", "threads": n, "reports": reports, "exit": rr.returncode})
         tsan_events.append({"e": "Reset"})
+    # 4b. free-running stress on the plain build with every work item: a third of the threads grow a library-managed buffer over and
+    #     over, the others create short-lived library-managed instances; crashes and results that differ from running alone
+    for n in ((9, 15) if tier == "thorough" else (9,)):
+        rounds = 6000 if tier == "thorough" else 2500
+        rr = subprocess.run([exe, "stress", str(n), str(rounds)], capture_output=True, text=True, timeout=900)
+        st = [json.loads(l) for l in rr.stdout.splitlines() if l.startswith('{"e":"Stress"')]
+        tsan_events.append({"e": "Tsan", "threads": n, "reports": st[0]["mismatches"] if st else 0, "exit": rr.returncode, "stress_rounds": rounds})
+        tsan_events.append({"e": "Reset"})
+    # 4c. the one window the stress cannot be relied on to hit: right behind a growth that MOVED a library-managed buffer, another
+    #     thread creates a library-managed instance (the vacated range is offered to its mmap as a placement hint) and assembles into it;
+    #     then the first thread goes on, then the second reads its code back: both must obtain what they obtain alone
+    rr = subprocess.run([exe, "pair", "20" if tier == "quick" else "200"], capture_output=True, text=True, timeout=300)
+    st = [json.loads(l) for l in rr.stdout.splitlines() if l.startswith('{"e":"Stress"')]
+    tsan_events.append({"e": "Tsan", "threads": 2, "reports": st[0]["mismatches"] if st else 0, "exit": rr.returncode, "pair_moves": st[0]["moves"] if st else -1})
+    tsan_events.append({"e": "Reset"})
     # 5. TLC validates everything
     tr = os.path.join(work, "thr-trace-%d.ndjson" % pid)
     allev = events + tsan_events
